@@ -36,7 +36,7 @@ def bcast_into(src, dst):
         return False
 
 
-def gen_case(rng, n_stmts, p_fail=0.2, p_clear=0.06, p_back=0.0):
+def gen_case(rng, n_stmts, p_fail=0.2, p_clear=0.06, p_back=0.0, p_shape=0.06):
     """returns the list of statements; shapes are tracked with NumPy so that every statement is valid (or fails by design)"""
     shapes, owner, stmts = [], [], []        # per name: shape, is the owner of C-contiguous memory
 
@@ -93,7 +93,8 @@ def gen_case(rng, n_stmts, p_fail=0.2, p_clear=0.06, p_back=0.0):
                 if shp is None:
                     continue
                 s["shape"] = list(shp)
-            stmts.append(s); shapes.append(tuple(shp)); owner.append(False)
+            stmts.append(s); shapes.append(tuple(shp))
+            owner.append(bool(owner[i]) and (f == "reshape" or (f == "getitem" and s["key"] in (["..."], [[None, None, None]]))))
         elif r < 0.60:       # non-view operation
             f = rng.choice(["add", "multiply", "subtract", "exp", "negative", "square"])
             if f in ("exp", "negative", "square"):
@@ -104,7 +105,7 @@ def gen_case(rng, n_stmts, p_fail=0.2, p_clear=0.06, p_back=0.0):
                 if rng.random() < 0.15:
                     args = [i, i]
             stmts.append({"s": "op", "f": f, "args": args}); shapes.append(shapes[i]); owner.append(False)   # (layout follows the operands: not nec. C-contiguous)
-        elif r < 1.0 - p_clear - p_back:      # in-place
+        elif r < 1.0 - p_clear - p_back - p_shape:      # in-place
             f = rng.choice(["setitem", "setitem", "iadd", "imul", "isub", "add_out", "mul_out", "exp_out", "add_out_where", "mul_out_where"])
             fail = rng.random() < p_fail
             bad = {"raw": [11, 13]}
@@ -133,6 +134,16 @@ def gen_case(rng, n_stmts, p_fail=0.2, p_clear=0.06, p_back=0.0):
                 if not fail and not any(isinstance(x, int) and shapes[x] == shapes[i] for x in s["args"]):
                     s["args"][0] = i        # the result must fill the target
             stmts.append(s)
+        elif r < 1.0 - p_clear - p_back:      # t.shape = newshape (on tensors known to be C-contiguous); fails for a shape of another size
+            if not owner[i]:
+                continue
+            n = int(np.prod(shapes[i]))
+            fail = rng.random() < p_fail
+            opts = [s2 for s2 in [(n,), (1, n), (n, 1)] + [(d, n // d) for d in (2, 3, 4) if n % d == 0] + [(2, 2, n // 4)] * (n % 4 == 0) if tuple(s2) != tuple(shapes[i])]
+            shp = (n + 1,) if fail else rng.choice(opts)
+            stmts.append({"s": "setshape", "t": i, "shape": list(shp), "fail": fail})
+            if not fail:
+                shapes[i] = tuple(shp)
         elif r < 1.0 - p_back:
             stmts.append({"s": "clear", "t": i})
         else:
@@ -159,6 +170,8 @@ def coq_stmt(s):
         return "NClear %d" % s["t"]
     if k == "backward":
         return "NBackward %d" % s["t"]
+    if k == "setshape":
+        return "NSetShape %d %s" % (s["t"], "true" if s["fail"] else "false")
     raise HarnessError(k)
 
 
